@@ -116,6 +116,11 @@ func (fr *Frame) probeLoop(li *loopInfo, cur *State) (locals []*ssa.Alloc, keys 
 	for k, v := range r.pureInsts {
 		savedPure[k] = v
 	}
+	savedAx := map[string]bool{}
+	for k, v := range r.axiomsDone {
+		savedAx[k] = v
+	}
+	savedAxUsed := len(r.axiomsUsed)
 	r.probing++
 	prevSink, prevHeader := fr.probeSink, fr.probeHeader
 	modL := map[*ssa.Alloc]bool{}
@@ -149,6 +154,8 @@ func (fr *Frame) probeLoop(li *loopInfo, cur *State) (locals []*ssa.Alloc, keys 
 			r.safetyN = savedSafety
 			r.callN, r.qctr = savedCallN, savedQ
 			r.pureInsts = savedPure
+			r.axiomsDone = savedAx
+			r.axiomsUsed = r.axiomsUsed[:savedAxUsed]
 		}()
 		// execute the loop's blocks in topological order
 		order := fr.blockOrder()
@@ -258,14 +265,19 @@ func (fr *Frame) checkLoopStep(li *loopInfo, st *State) {
 		name += "@" + relName(fr.fn)
 	}
 	env := fr.loopEnv(li, st)
+	li.nBack++
+	stepName := "step"
+	if li.nBack > 1 {
+		stepName = fmt.Sprintf("step%d", li.nBack)
+	}
 	for _, inv := range spec.Invariants {
 		g := r.evalBool(env, inv)
-		r.oblige(st, "loop-step", fmt.Sprintf("%s#loop%d:step:%s", name, li.ord, inv.Label), mergeTags(inv.Tags, fr.safetyTags()), g, inv.Src, true, li.header.Instrs[0].Pos())
+		r.oblige(st, "loop-step", fmt.Sprintf("%s#loop%d:%s:%s", name, li.ord, stepName, inv.Label), mergeTags(inv.Tags, fr.safetyTags()), g, inv.Src, true, li.header.Instrs[0].Pos())
 	}
 	if spec.Decreases != nil {
 		sv := r.eval(env, spec.Decreases.E)
 		g := and(app("Bool", "<=", intLit(0), li.decHead), app("Bool", "<", sv.t, li.decHead))
-		r.oblige(st, "decreases", fmt.Sprintf("%s#loop%d:decreases", name, li.ord), mergeTags(spec.Decreases.Tags, fr.safetyTags()), g, spec.Decreases.Src, true, li.header.Instrs[0].Pos())
+		r.oblige(st, "decreases", fmt.Sprintf("%s#loop%d:%s:decreases", name, li.ord, stepName), mergeTags(spec.Decreases.Tags, fr.safetyTags()), g, spec.Decreases.Src, true, li.header.Instrs[0].Pos())
 	}
 }
 
